@@ -5,7 +5,7 @@ import glob, json, os, re, shutil, subprocess, sys, tempfile
 only = sys.argv[1:]
 SEED_DIR = os.environ.get("SEED_DIR", "/tmp/seed")
 RENAME = ({"A": "C", "B": "D", "C": "E"} if SEED_DIR.endswith("seed2") else {"A": "E", "B": "F", "C": "G"} if SEED_DIR.endswith(("seed3", "seed4"))
-          else {"A": "G", "B": "H"} if SEED_DIR.endswith("seed6") else {"A": "I", "B": "J"} if SEED_DIR.endswith("seed8") else {"A": "K", "B": "L"} if SEED_DIR.endswith("seed10") else {"A": "M", "B": "N"} if SEED_DIR.endswith("seed12") else {"A": "O", "B": "P"} if SEED_DIR.endswith("seed14") else {"A": "Q", "B": "R"} if SEED_DIR.endswith("seed16") else {})
+          else {"A": "G", "B": "H"} if SEED_DIR.endswith("seed6") else {"A": "I", "B": "J"} if SEED_DIR.endswith("seed8") else {"A": "K", "B": "L"} if SEED_DIR.endswith("seed10") else {"A": "M", "B": "N"} if SEED_DIR.endswith("seed12") else {"A": "O", "B": "P"} if SEED_DIR.endswith("seed14") else {"A": "Q", "B": "R"} if SEED_DIR.endswith("seed16") else {"A": "S", "B": "T"} if SEED_DIR.endswith("seed18") else {})
 # round 3: letters continue after those the property already has
 RENAME3 = {"C14": {"A": "C", "B": "D"}, "C17": {"A": "C", "B": "D"}, "C18": {"A": "C", "B": "D"}, "C20": {"A": "D", "B": "E"}}
 RENAME9 = {"C07": {"A": "K", "B": "L"}, "C09": {"A": "K", "B": "L"}, "C13": {"A": "K", "B": "L"}, "C14": {"A": "I", "B": "J"}, "C17": {"A": "I", "B": "J"},
